@@ -50,7 +50,7 @@ def model_and_cases(directed, consts, tag, workers):
     """model-check MC_Adjacency and emit the cases; returns TlcResult"""
     c = {"Nodes": set(range(1, consts["nodes"] + 1)), "Vals": set(range(1, consts["vals"] + 1)),
          "Directed": directed, "MaxEdges": consts["max_edges"]}
-    cfg = vlib.cfg_text(c, spec="SpecEmit", invariants=INVS, properties=["StepShape"], constraints=["Bound"])
+    cfg = vlib.cfg_text(c, spec="SpecEmit", invariants=INVS, properties=["StepShape", "RefinesAdjCount"], constraints=["Bound"])
     r = vlib.run_tlc("MC_Adjacency", cfg, tag, workers=workers, timeout=3000, collect_prints=False)
     if r.violation or not r.ok:
         raise ToolError("design model MC_Adjacency (%s) does not satisfy its own invariants: %s (see %s)"
@@ -159,6 +159,28 @@ def validate_traces(flavours, consts, seed, tag, rep, pid):
     return total_hist, total_events, recs
 
 
+def apalache_inductive(tag):
+    """extra: MirrorCount is an inductive invariant of the integer abstraction for unboundedly many edges"""
+    import subprocess
+    d = os.path.join(vlib.WORK, tag, "apalache")
+    os.makedirs(d, exist_ok=True)
+    out = []
+    for args in (["--init=Init", "--inv=IndInv", "--length=0"], ["--init=IndInit", "--inv=IndInv", "--length=1"]):
+        try:
+            p = subprocess.run(["apalache-mc", "check", "--out-dir=" + d] + args + [os.path.join(vlib.SPEC, "apalache", "AdjCount.tla")],
+                               cwd=d, stdout=subprocess.PIPE, stderr=subprocess.STDOUT, text=True, timeout=1500)
+        except subprocess.TimeoutExpired:
+            out.append(" ".join(args) + ": timeout (nothing depends on it)")
+            continue
+        if "The outcome is: NoError" in p.stdout:
+            out.append(" ".join(args) + ": NoError")
+        elif "Checker has found an error" in p.stdout and "outcome is: Error" in p.stdout:
+            raise ToolError("Apalache refutes the inductive invariant of AdjCount: " + p.stdout[-1500:])
+        else:
+            out.append(" ".join(args) + ": tool problem (%s)" % p.stdout[-200:].replace("\n", " "))
+    return out
+
+
 def run(pid, tier, seed):
     rep = Reporter(pid, tier, seed)
     consts = TIERS[tier]
@@ -180,7 +202,7 @@ def run(pid, tier, seed):
             transitions += r.generated
             cov_models.append({"model": "MC_Adjacency", "Directed": directed, "Nodes": fam["nodes"], "Vals": fam["vals"],
                                "MaxEdges": fam["max_edges"], "distinct_states": r.distinct, "states_generated": r.generated,
-                               "tlc_wall_s": round(r.wall, 1), "invariants": INVS, "action_property": "StepShape"})
+                               "tlc_wall_s": round(r.wall, 1), "invariants": INVS, "action_properties": ["StepShape", "RefinesAdjCount"]})
             log("%s: model %s: %d distinct states, %d generated, %.1fs" % (pid, name, r.distinct, r.generated, r.wall))
             fls = [f for f in flavours if vlib.DIRECTED[f] == directed]
             d = os.path.join(vlib.WORK, tag)
@@ -219,6 +241,9 @@ def run(pid, tier, seed):
                                      m.get("via"), json.dumps(obs)[:200], ", ".join(mine)),
                                   dict(m, source="tlc-generated-case", tlc_reasons=reasons))
     hist, events, recs = validate_traces(flavours, consts, seed, tag + "/traces", rep, pid)
+    apalache = "not run in the quick tier (about 8 min)"
+    if tier == "thorough":
+        apalache = apalache_inductive(tag)
     rep.cov.update({
         "states": states, "transitions": transitions,
         "traces_validated_against_impl": replayed + hist,
@@ -229,6 +254,8 @@ def run(pid, tier, seed):
                 "has at least one edge or the call changed the state; distinct by hash of (pre-state, operation), summed over flavours",
         "exhaustive": True, "model_drift": drift, "models": cov_models, "flavours": flavours,
         "recorders": recs,
+        "unbounded_count_abstraction": {"spec": "spec/apalache/AdjCount.tla", "linked_by": "RefinesAdjCount (TLC, action property of MC_Adjacency)",
+                                        "apalache_inductive_invariant": apalache},
     })
     rep.assumptions += [
         "exhaustive within the stated constants (small-scope), seeded random histories beyond",
